@@ -18,6 +18,10 @@ else:
     sel = [m for m in cat if m["id"] in args]
 results = {}
 for m in sel:
+    if m.get("equivalent"):
+        results[m["id"]] = "EQUIVALENT (not scored)"
+        print(m["id"], "EQUIVALENT (not scored):", m.get("note", ""))
+        continue
     tmp = tempfile.mkdtemp(prefix="vmut_")
     try:
         repo = os.path.join(tmp, "repo")
